@@ -31,13 +31,13 @@ CHECKS = {
         "DESIGN.md section 6, C13",
     ),
     "C05": (
-        "bounded-exhaustive enumeration + property-based testing (proptest), differential against a reference lexer/parser; conservation invariant",
+        "bounded-exhaustive enumeration + property-based testing (proptest) + coverage-guided fuzzing (libFuzzer, thorough tier), all differential against a reference lexer/parser; conservation invariant",
         "Stage A is complete for its finite sub-domain (all sequences of <=5 (quick) / <=6 (thorough) tokens over a 16-token alphabet): both parsers accept exactly what the documented grammar derives and build the dictated tree. Stage B explores random longer strings (rendered formulae with character-level mutations, token soup, lexical corner strings). Exploration; exhaustive only for stage A.",
         "The reference grammar is derived from README, the parser module documentation and the property text; name characters / blanks are char::is_alphanumeric|'_' / char::is_whitespace.",
         "DESIGN.md section 6, C05",
     ),
     "C06": (
-        "bounded-exhaustive enumeration + property-based testing (proptest): round trip and independent renderer",
+        "bounded-exhaustive enumeration + property-based testing (proptest) + coverage-guided fuzzing (libFuzzer, thorough tier): round trip and independent renderer",
         "Complete for all trees of <=4 nodes over a small vocabulary (constructors); random exploration of larger / deeper trees from the parsers, preprocessing and the public constructors: print->parse is the identity, every node's stored text equals an independent canonical renderer, stored height = 1 + max child.",
         "Identifiers are valid per the reference lexer (one word, not a constant spelling / non-empty name word).",
         "DESIGN.md section 6, C06",
@@ -61,7 +61,7 @@ CHECKS = {
         "DESIGN.md section 6, C04",
     ),
     "C14": (
-        "property-based testing (proptest): crash oracle + independent error predicate over the reference parse",
+        "property-based testing (proptest) + coverage-guided fuzzing (libFuzzer, thorough tier): crash oracle + independent error predicate over the reference parse",
         "No counterexample among generated (network, strings, context subset, k) inputs: none of 9 string entry points panics, and Ok/Err matches the independent predicate (syntax by the reference parser; free / re-quantified variable, unknown proposition, missing label, k < depth). Exploration; 'never panics' is searched, not shown.",
         "Context sets valid for the graph; nesting bounded by the generator; reference parser and scope checker of the harness are the specification.",
         "DESIGN.md section 6, C14",
@@ -86,7 +86,7 @@ CHECKS = {
     ),
     "C15": (
         "property-based testing (proptest): differential across k, raw vs sanitised point-wise",
-        "No counterexample: sanitised results live in the canonical context (names/order of SymbolicAsyncGraph::new), interoperate with that graph, equal the raw results point-wise and are BDD-equal for k = depth, depth+1, depth+3. Exploration.",
+        "No counterexample (graphs from get_extended_symbolic_graph and graphs restricted by the caller to a subset of valid colours): sanitised results live in the canonical context (names/order of SymbolicAsyncGraph::new), interoperate with that graph, equal the raw results point-wise and are BDD-equal for k = depth, depth+1, depth+3. Exploration.",
         "Trusted base of C01.",
         "DESIGN.md section 6, C15",
     ),
@@ -98,19 +98,19 @@ CHECKS = {
     ),
     "C20": (
         "differential property-based testing (proptest): colour slice of the parametrised result vs result on the network instantiated by pick_witness",
-        "No counterexample among generated (network, valid colour, formula): the states the result associates with a colour equal the result on the instantiated network. Thorough tier adds bundled benchmark models. Exploration.",
+        "No counterexample among generated (network, valid colour, plain or extended formula with context sets restricted to the colour): the states the result associates with a colour equal the result on the instantiated network. Thorough tier adds bundled benchmark models. Exploration.",
         "lib-param-bn's pick_witness is trusted to instantiate the colour (independent of the harness's FnUpdate interpreter).",
         "DESIGN.md section 6, C20",
     ),
     "C11": (
         "property-based testing (proptest) of algebraic fixed-point laws on the tool's own results + differential against lib-param-bn reachability primitives",
-        "No counterexample among generated argument sets on random small networks and on 8 bundled benchmark models (up to 35 variables / 2^51 colours): unfolding equations, dualities, monotonicity, EF == reach_backward, AG == trap_forward, EU == constrained backward reachability, EX == pre + steady states, extremality of EG/AF/AU by reference iterations. On 4 large models only the laws of EX, AX, EF, AG, EU, AW are checked (the classical EG/AF/AU iterations take minutes there). Exploration.",
+        "No counterexample among generated argument sets (sub-space unions, single points, complements of points) on random small networks, on the same networks padded with 12-58 frozen variables (state spaces up to 2^62) and on 8 bundled benchmark models (up to 35 variables / 2^51 colours): unfolding equations, dualities, monotonicity, EF == reach_backward, AG == trap_forward, EU == constrained backward reachability, EX == pre + steady states, extremality of EG/AF/AU by reference iterations. On 4 large models only the laws of EX, AX, EF, AG, EU, AW are checked (the classical EG/AF/AU iterations take minutes there). Exploration.",
         "pre, can_post, reach_backward, trap_forward, restrict, Reachability::reach_bwd of lib-param-bn are trusted; models needing more than a minute per operator are excluded.",
         "DESIGN.md section 6, C11",
     ),
     "C16": (
         "round-trip property-based testing (proptest) through temporary files",
-        "No counterexample among generated (network in aeon/bnet/sbml, label->set map, formula list): archive entries are exactly one per result + model + formula list; reload with a graph rebuilt from the archived model and the same k gives the same labels and BDD-equal sets; reloaded sets act like in-memory sets as wild-card context; analyse_formulae's archive entry i is the library result of line i. Exploration.",
+        "No counterexample among generated (network in aeon/bnet/sbml, label->set map, formula list; target path fresh or holding an older archive; sets up to a 3 MiB BDD dump): archive entries are exactly one per result + model + formula list; reload with a graph rebuilt from the archived model and the same k gives the same labels and BDD-equal sets; reloaded sets act like in-memory sets as wild-card context; analyse_formulae's archive entry i is the library result of line i. Exploration.",
         "Temporary files under the system temp directory; zip crate 0.6 used to inspect archives.",
         "DESIGN.md section 6, C16",
     ),
@@ -165,7 +165,7 @@ def main():
             "name": "hctl-verif",
             "path": "/verif/harness",
             "serves_properties": [c["property_id"] for c in checks],
-            "kind_free_text": "Rust crate: proptest driven from a binary on 16 worker threads (fixed seeds from VERIF_SEED), bounded-exhaustive enumeration stages, libFuzzer targets under harness/fuzz; explicit-state HCTL evaluator, reference parser, alpha-equivalence as oracles",
+            "kind_free_text": "Rust crate: proptest driven from a binary on 16 worker threads (fixed seeds from VERIF_SEED), bounded-exhaustive enumeration stages, libFuzzer targets under harness/fuzz (thorough tier of C05, C06, C14; artefacts are re-checked by the same oracle and minimised before being reported); explicit-state HCTL evaluator, reference parser, alpha-equivalence, truth-table families as oracles; regression inputs in /verif/regress are replayed first on every run",
         }],
         "checks": checks,
         "notes": "Exit codes of every check: 0 held, 1 violation (with a VIOLATION line), 2 inconclusive / harness error (never a VIOLATION line). Known findings: /verif/known_findings.json.",
